@@ -60,12 +60,25 @@ func partition(line, delim string) (string, string) {
 
 }
 
+// readLine returns the next line of the input. The last line is returned
+// even if it is not terminated by a newline; io.EOF is only returned once
+// there is no input left at all.
+func readLine(reader *bufio.Reader) (string, error) {
+	line, err := reader.ReadString('\n')
+	if err == io.EOF && line != "" {
+		return line, nil
+	}
+	return line, err
+}
+
+// ParseOne reads the next entry. It returns io.EOF if there is no further
+// entry, and io.ErrUnexpectedEOF if the input ends inside an entry.
 func ParseOne(reader *bufio.Reader) (*ChangelogEntry, error) {
 	changeLog := ChangelogEntry{}
 
 	var header string
 	for {
-		line, err := reader.ReadString('\n')
+		line, err := readLine(reader)
 		if err != nil {
 			return nil, err
 		}
@@ -110,7 +123,11 @@ func ParseOne(reader *bufio.Reader) (*ChangelogEntry, error) {
 	var signoff string
 	/* OK, we've got the header. Let's zip down. */
 	for {
-		line, err := reader.ReadString('\n')
+		line, err := readLine(reader)
+		if err == io.EOF {
+			/* The input ended before the " -- " line of this entry */
+			return nil, io.ErrUnexpectedEOF
+		}
 		if err != nil {
 			return nil, err
 		}
